@@ -75,6 +75,7 @@ type WebEnt struct {
 //	"lost"          a write reports success but the bytes never reach the file and
 //	                the later Close reports EIO (deferred write error)
 //	"neterr"        an HTTP round trip / body read fails with a transport error
+//	"status:<N>"    an HTTP round trip is answered with status N and a small JSON error body instead of the document
 //	"stall"         a read on stdin / an HTTP body that would report end of file blocks for ever instead (the
 //	                peer has sent everything but keeps the stream open): the run ends as non-termination
 type Fault struct {
